@@ -303,6 +303,12 @@ class RankInvariantChecker(SKCMethodABC):
         # matrix with alternatives
         df = dm.matrix
 
+        if not np.any(alternative_max_abs_noise.to_numpy() > 0):
+            raise ValueError(
+                f"Alternative {mutate!r} can't be worsened: it has no room "
+                "with respect to the next alternative in any criterion"
+            )
+
         noise = 0  # all noises == 0
         while np.all(noise == 0):  # at least we need one noise > 0
             # calculate the noises without sign
